@@ -47,6 +47,11 @@ M = {
  "n6": lambda: rep("src/simulate.c", "*ret_file = progp->strings[file_idx - 1];", "*ret_file = (current_prog ? current_prog : progp)->strings[file_idx - 1];"),
  # N7 the scan of program_file_id looks at the later half of the segments only
  "n7": lambda: rep("lib/lpc/compiler.c", "for (i = 1; i < n; i += 2)\n        {\n          if (fi[i] == (unsigned short) file_id)", "for (i = (n / 4) * 2 + 1; i < n; i += 2)\n        {\n          if (fi[i] == (unsigned short) file_id)"),
+ # N8 stale cached value across a call: the block address is read before add_to_mem_block() may move the block
+ "n8": lambda: (rep("lib/lpc/program/icode.c", "  size_t i, n = mem_block[A_INIT_LINES].current_size / sizeof (init_line_t);\n", "  size_t i, n = mem_block[A_INIT_LINES].current_size / sizeof (init_line_t);\n  char *program_block = mem_block[A_PROGRAM].block;\n"),
+                rep("lib/lpc/program/icode.c", "prog_code = mem_block[A_PROGRAM].block + base + il->offset;", "prog_code = program_block + base + il->offset;")),
+ # N9 cleanup skipped on a rare path: the include stack is not unwound when the lexer had given up (fatal lexer error)
+ "n9": lambda: rep("lib/lpc/lex.c", "  while (inctop)\n    {\n      incstate_t *p;\n\n      p = inctop;\n      close (yyin_desc);\n      opt_trace (TT_COMPILE|3, \"closed fd = %d (%s)\\n\"", "  while (inctop && !lex_fatal)\n    {\n      incstate_t *p;\n\n      p = inctop;\n      close (yyin_desc);\n      opt_trace (TT_COMPILE|3, \"closed fd = %d (%s)\\n\""),
 }
 M[sys.argv[1]]()
 print("applied", sys.argv[1])
